@@ -128,6 +128,23 @@ def run(chk: Check):
                "the grammar yields only extent types of the VMDK specification", expected=str(sorted(DATA_TYPES_SPEC)), found=str(sorted(types)))
     for must in ("FLAT", "SPARSE", "VMFS", "VMFSSPARSE", "SESPARSE"):
         chk.decide(must in types, "K-GRAMMAR", f"grammar-has:{must}", where_rx, f"the grammar accepts {must} extent lines")
+    # shape of the other groups: quoted greedy file name, decimal sector counts, anchored
+    fshape = rx.group_shape(pat, flags, "filename")
+    want_f = [("lit", '"'), ("greedy", 1, "inf", (("any",),)), ("lit", '"')]
+    chk.decide(fshape == want_f, "K-GRAMMAR", "filename-group-greedy-quoted", where_rx,
+               "the file name is everything between the first and the LAST double quote of the token run (greedy), so names may contain "
+               "quotes and blanks" if fshape == want_f else
+               f"the file name group is not the greedy quoted form `\".+\"`: {fshape} - a name containing a quote followed by a blank is cut short",
+               expected=str(want_f), found=str(fshape))
+    for g_ in ("sectors", "start_sector"):
+        sh = rx.group_shape(pat, flags, g_)
+        okd = sh is not None and len(sh) == 1 and sh[0][0] == "greedy" and sh[0][1] == 1 and sh[0][2] == "inf" and "DIGIT" in str(sh[0][3])
+        chk.decide(okd, "K-GRAMMAR", f"group-decimal:{g_}", where_rx, f"{g_} is a decimal number (\\d+)", found=str(sh))
+    chk.decide(rx.anchored(pat, flags), "K-GRAMMAR", "grammar-anchored", where_rx, "the extent grammar is anchored at both ends of the line")
+    gn = rx.group_names(pat, flags)
+    order = [k for k, _ in sorted(gn.items(), key=lambda kv: kv[1])]
+    chk.decide(order == ["access_mode", "sectors", "type", "filename", "start_sector", "partition_uuid", "device_identifier"], "K-GRAMMAR", "group-order", where_rx,
+               "fields appear in the order access, sectors, type, file name, start sector, partition uuid, device identifier", found=str(order))
     # reader classes per type
     want_reader = {"SPARSE": "SparseDisk", "VMFSSPARSE": "SparseDisk", "SESPARSE": "SparseDisk", "VMFS": "RawDisk", "FLAT": "RawDisk", "ZERO": "ZeroDisk"}
     for t_, rd in want_reader.items():
@@ -165,6 +182,15 @@ def run(chk: Check):
     bookkeeping(chk, init)
     vmdk_walk(chk)
     storage(chk)
+    # Parallels: every storage is stacked on its own (shared with C07)
+    from . import C07
+
+    sub = Check("C07", chk.tier, chk.world, "other", quiet=True)
+    C07.parallels_chain(sub)
+    for i in sub.instances:
+        if "parent-is-previous-stream" in i.name or "stack-base-first" in i.name:
+            i.name = "C07:" + i.name
+            chk.instances.append(i)
     chk.require("K-GRAMMAR", 10)
     chk.require("K-SPLIT", 6)
     chk.require("K-FORMULA", 6)
